@@ -550,3 +550,46 @@ def fam_skiprules(tier):
                 gi += 1
     read = peg.pest_read(out, "sr_f")
     return [g for g, r in zip(out, read) if r.get("valid")]
+
+
+def rand_json(rnd, depth):
+    c = rnd.random()
+    ws = lambda: rnd.choice(["", "", " ", "\n", "\t ", "\r\n"])
+    if depth == 0 or c < 0.35:
+        k = rnd.randrange(6)
+        if k == 0:
+            return rnd.choice(["true", "false", "null"])
+        if k in (1, 2):
+            return rnd.choice(["0", "-0", "12", "-7.25", "1e5", "2.5E-3", "10", "3.0e+2", "0.1"])
+        s = "".join(rnd.choice(["a", "b", " ", "é", "中", "\\n", "\\\"", "\\\\", "\\u00e9", "\\/", "x"]) for _ in range(rnd.randrange(0, 6)))
+        return '"' + s + '"'
+    if c < 0.7:
+        n = rnd.randrange(0, 4)
+        return "[" + ws() + ("," + ws()).join(rand_json(rnd, depth - 1) + ws() for _ in range(n)) + "]"
+    n = rnd.randrange(0, 4)
+    items = []
+    for _ in range(n):
+        items.append('"' + rnd.choice(["k", "key", "é", ""]) + '"' + ws() + ":" + ws() + rand_json(rnd, depth - 1) + ws())
+    return "{" + ws() + ("," + ws()).join(items) + "}"
+
+
+def fam_json(tier, seed):
+    """The repository's benchmark grammar (derive/benches/json.pest) with seeded random documents: long inputs for trace validation."""
+    import re
+    try:
+        text = open("/repo/derive/benches/json.pest").read()
+    except OSError:
+        return []
+    text = re.sub(r"#\w+\s*=\s*", "", text)
+    rnd = random.Random("json/%s" % seed)
+    docs = []
+    for _ in range(40 if tier == "quick" else 300):
+        d = rand_json(rnd, rnd.choice([2, 3, 4]))
+        if rnd.random() < 0.25 and d:
+            k = rnd.randrange(len(d))
+            d = d[:k] + rnd.choice(["", ",", "]", "x", '"']) + d[k + 1:]      # one edit: mostly rejected documents
+        docs.append(rnd.choice(["", " ", "\n"]) + d + rnd.choice(["", " ", "\n"]))
+    g = dict(id="js0", text=text, alphabet=[], maxlen=0, inputs=[cps(s) for s in ["true", "[1, 2]", '{"a": null}', '"x"']], entries=["json", "value", "string", "number"],
+             long_inputs=[cps(s) for s in docs])
+    r = peg.pest_read([g], "json_f")[0]
+    return [g] if r.get("valid") else []
